@@ -343,3 +343,53 @@ func evalConst(v ssa.Value, env map[string]string, rel relKeys) (string, bool) {
 	}
 	return "", false
 }
+
+// Assume decides some branch conditions (NOT already stripped by the caller:
+// the function receives the raw condition value).
+type Assume func(cond ssa.Value) (truth, known bool)
+
+// UngatedUnder is Ungated restricted to the paths consistent with assume:
+// branch edges whose condition assume decides the other way are not taken.
+// Conditions assume does not know are explored both ways, so an empty result
+// means: on every path consistent with the assumptions, the gate is passed
+// before the sink.
+func UngatedUnder(spec CutSpec, assume Assume) []Hit {
+	pruned := map[Edge]bool{}
+	for e := range spec.GateEdge {
+		pruned[e] = true
+	}
+	for _, b := range spec.Fn.Blocks {
+		if len(b.Instrs) == 0 {
+			continue
+		}
+		ifi, ok := b.Instrs[len(b.Instrs)-1].(*ssa.If)
+		if !ok {
+			continue
+		}
+		cond := ifi.Cond
+		neg := false
+		for {
+			u, ok := cond.(*ssa.UnOp)
+			if !ok || u.Op != token.NOT {
+				break
+			}
+			neg = !neg
+			cond = u.X
+		}
+		t, known := assume(cond)
+		if !known {
+			continue
+		}
+		if neg {
+			t = !t
+		}
+		if t {
+			pruned[Edge{b, b.Succs[1]}] = true
+		} else {
+			pruned[Edge{b, b.Succs[0]}] = true
+		}
+	}
+	s2 := spec
+	s2.GateEdge = pruned
+	return Ungated(s2)
+}
